@@ -56,7 +56,7 @@ def P(name, typ=None, default=NODEF):
 
 
 def C(name, params=(), kind='plain', bases=(), abstract=False, extra=False,
-      pyname=None, yattrs=(),
+      pyname=None, yattrs=(), noargs_exc=False, kwonly=(),
       members=(), rejects=(), recog=None, sav=None, swe=None,
       init_raises=False, attrs_private=False, ydefaults=()):
     return {
@@ -71,7 +71,8 @@ def C(name, params=(), kind='plain', bases=(), abstract=False, extra=False,
         'hassav': sav is not None, 'sav': sav or ['none'],
         'hasswe': swe is not None, 'swe': swe or ['none'],
         'initraises': init_raises,
-        'yattrs': list(yattrs),
+        'yattrs': list(yattrs), 'noargsexc': noargs_exc,
+        'kwonly': list(kwonly),
     }
 
 
@@ -108,6 +109,13 @@ def M(mid, classes, doctypes, keys, scalars, reg=None, qtags=('seq',),
         'rootk': rootk, 'nodup': nodup, 'aliask': list(aliask), 'cyc': cyc,
         'rtypes': list(doctypes if rtypes is None else rtypes),
     }
+
+
+LONG1 = ('A long description that goes well beyond the eighty columns that '
+         'PyYAML uses as its preferred width.\n  - an indented bullet that is '
+         'itself quite long and passes column eighty after indentation, yes\n'
+         'and a last line')
+LONG2 = ' starts with a space and then ' + 'goes on and on ' * 8 + 'until the end'
 
 
 def models():
@@ -362,6 +370,28 @@ def models():
     ms.append(M('private', [pv], [K('Pv'), L(K('Pv'))], keys=['a', 'b', 'c'],
                 scalars=[S_42, S_ABC], strs=['abc'], family='dump', qn=1,
                 tn=1, qo=5, to=6))
+
+    # ---- constructors that refuse without a message; keyword-only parameters --
+    ir2 = C('Ir2', [P('a', INT)], init_raises=True, noargs_exc=True)
+    sl2 = C('Sl2', kind='strlike', rejects=['abc'], noargs_exc=True)
+    kw = C('Kw', [P('name', STR)], kwonly=['low'], init_raises=True)
+    kd = C('Kd', [P('name', STR)], kwonly=['low=1'])
+    ms.append(M('raising2', [ir2, sl2, kw, kd],
+                [K('Ir2'), K('Sl2'), K('Kw'), K('Kd')],
+                keys=['a', 'name', 'low'], scalars=[S_42, S_ABC], rtypes=[]))
+    # ---- an underscore-named, untyped constructor parameter ---------------------
+    um = C('Um', [P('a', INT), P('_meta', None, ['null'])])
+    hk = C('Hk', [P('c', INT)])
+    ms.append(M('underscore', [um, hk], [K('Um')], keys=['a', '_meta', 'c'],
+                scalars=[S_42], mtags=('map', '!Hk'), qn=7, tn=7, rootk='m',
+                nodup=True, rtypes=[]))
+    # ---- long and unusual strings as attributes of an object -------------------
+    ls = C('Ls', [P('d', STR), P('e', STR, ['str', 'abc'])])
+    ms.append(M('longstr', [ls], [K('Ls'), L(STR), D(STR)], keys=['d', 'e'],
+                scalars=[S_ABC],
+                strs=[LONG1, LONG2, 'a\x85b', 'a\u2028b', '\x85', 'abc',
+                      ' lead', 'tab\there', 'trail ', 'x' * 200],
+                family='dump', qn=1, tn=1, qo=3, to=4))
     # ---- dump / round-trip families ----------------------------------------
     ms.append(M('strings', [], [STR, ANY, PATH], keys=['abc'], scalars=[S_ABC],
                 family='dump', qn=1, tn=1))
@@ -492,6 +522,8 @@ def build(dimplicit=None):
         for tag, val in m['scalars'] + m['oddkeys']:
             vals.add(val)
         for k in m['keys']:
+            vals.add(k)
+        for k in m['strs']:
             vals.add(k)
     vals |= set(IMPLICIT)
     scalar_tags = ['str', 'int', 'float', 'bool', 'null', 'timestamp']
